@@ -11,6 +11,11 @@
 #include "util/file_piece.hh"
 #include "util/utf8.hh"
 #include "preprocess/captive_child.hh"
+#ifdef PREPROCESS_VERIF
+#include "util/verif_hooks.hh"
+#else
+#define PV_TRACE(kind, a, b)
+#endif
 
 namespace {
 
@@ -262,6 +267,7 @@ int main(int argc, char **argv) {
 
 		std::deque<util::StringPiece> lines;
     std::vector<util::StringPiece> delimiters;
+		std::size_t pv_index = 0;
 		for (util::StringPiece sentence : in) {
 
 			// If there is nothing to wrap, it will end up with a single line
@@ -273,19 +279,24 @@ int main(int argc, char **argv) {
 			// but their amount at least will tell the reader thread how many
 			// lines it needs to consume to reconstruct the single line.
       DelimiterList list(delimiters);
+			PV_TRACE("F.enq", pv_index, lines.size());
 			queue.Produce(std::move(list));
 
 			// Feed the document to the child.
 			// Might block because it can cause a flush.
 			for (auto const &line : lines)
 				child_in << line << '\n';
+			for (std::size_t pv_k = 0; pv_k < lines.size(); ++pv_k) PV_TRACE("F.write", pv_index, pv_k);
+			++pv_index;
 		}
 
 		// Tell the reader to stop
+		PV_TRACE("F.poison", 0, 0);
 		queue.Produce({});
 
 		// Flush (blocks) & close the child's stdin
 		child_in.flush();
+		PV_TRACE("F.close", 0, 0);
 	});
 
 	std::thread reader([&child_out_fd, &queue, &options]() {
@@ -297,6 +308,7 @@ int main(int argc, char **argv) {
 
 		for (size_t sentence_num = 1; queue.Consume(delimiters).size() > 0; ++sentence_num) {
 			sentence.clear();
+			PV_TRACE("C.consume", delimiters.size(), 0);
 			
 			// Let's assume that the wrapped process plus the chopped off
 			// delimiters won't be more than twice the input we give it.
@@ -306,6 +318,7 @@ int main(int argc, char **argv) {
         DelimiterList::forward_iterator delimit(delimiters);
         for (size_t i = 0; i < delimiters.size(); ++i, ++delimit) {
 					util::StringPiece line(child_out.ReadLine('\n', false));
+					PV_TRACE("C.read", 0, 0);
 					sentence.append(line.data(), line.length());
           util::StringPiece delimiter(*delimit);
 					sentence.append(delimiter.data(), delimiter.size());
@@ -319,6 +332,7 @@ int main(int argc, char **argv) {
 			// might concatenate all these files and that will mess up if they
 			// don't have a trailing newline.
 			out << sentence << '\n';
+			PV_TRACE("C.out", 0, 0);
 
 			// Just to check, next time we call Consume(), will we block? If so,
 			// that means we've caught up with the producer. However, the order
